@@ -236,6 +236,11 @@ SQuIDS& SQuIDS::operator=(SQuIDS&& other){
  */
 
 void SQuIDS::Set_xrange(double xi, double xf, std::string type){
+  if (nx < 2){ //no interval to divide: the formulas below divide by nx-1 and address x[nx-1]
+    if (nx == 1)
+      x[0] = xi;
+    return;
+  }
   if (xi == xf){
     x[0] = xi;
     return;
@@ -244,7 +249,7 @@ void SQuIDS::Set_xrange(double xi, double xf, std::string type){
   if(type=="linear" || type=="Linear" || type=="lin" || type=="Lin"){
     for(unsigned int e1 = 0; e1 < nx; e1++){
       x[e1]=xi+(xf-xi)*static_cast<double>(e1)/static_cast<double>(nx-1);
-      if(x[e1]>xf) //rounding must not carry a node beyond the requested end
+      if(xi<xf && x[e1]>xf) //rounding must not carry a node beyond the requested end
         x[e1]=xf;
     }
     //rounding can also leave the last node a few ulps short of xf
@@ -261,7 +266,9 @@ void SQuIDS::Set_xrange(double xi, double xf, std::string type){
     for(unsigned int e1 = 0; e1 < nx; e1++){
       double X=xmin_log+(xmax_log-xmin_log)*static_cast<double>(e1)/static_cast<double>(nx-1);
       //exp(log(x)) is in general not x: keep every node inside the requested range
-      x[e1]=std::min(std::max(exp(X),xi),xf);
+      x[e1]=exp(X);
+      if(xi<xf)
+        x[e1]=std::min(std::max(x[e1],xi),xf);
     }
     //and make the grid span exactly that range
     x[0]=xi;
